@@ -807,3 +807,211 @@ Proof.
   split; [reflexivity|]. split; [split; [reflexivity | vm_compute; discriminate]|].
   split; [reflexivity|]. split; [vm_compute; discriminate | exact I].
 Qed.
+
+(* ========================================================================== *)
+(* SECOND AUDIT CLOSURE (Proofs/MoreSet.v, section ROUND 2)
+
+   4. THE MEMBERSHIP CHARACTERISATION FROM THE MODEL'S OWN RESULTS.  [stores] reads the IDEAL set's
+      result of a call; C07_srun2_results_membership removes that indirection:
+        (a) for every position of the history, the result the model returned for that call
+            (nth_error (smrun2 ..) (length pre)) IS the ideal set's result (R2Base (fst (fstep ..)));
+        (b) the element the final container holds for class c is k  <->  the history splits as
+            pre ++ o :: post, the MODEL returned r for o, [stored_by n o r .. k] (insert k: r is
+            `true`; replace k: r is not a panic; extend: per item, on the ideal set, because the
+            single result of extend does not say which items were new: C07_stored_by_unfold), and
+            no operation of post removes class c.
+      (C07_history_run_view gives contents only; this is about results AND contents.)
+
+   5. A FORGOTTEN Drain (mem::forget(set.drain())): sop3 := S3Base o (o : sop2) | S3DrainForget take
+      = drain(), take [take] items, never drop the Drain (C07_sop3_unfold shows the model code: no
+      drain_drop).  The set is the empty set at once, the items taken are the first [take] of the
+      elements in some order, the items not taken are leaked: NOTHING is destroyed, the event log is
+      unchanged (C07_sstep3_forget, which needs no Lawful: every environment).
+        C07_sstep3_refines, C07_srun3_refines(_new)   histories with insert .. extend, drain AND
+                                forgotten drains anywhere
+        C07_fsfinal3_mem, C07_srun3_membership        the trace-level membership theorem for them
+      (sop3 wraps sop2 instead of adding a constructor to it so that the theorems above keep their
+       statements; a history of sop2 operations is the history List.map S3Base of sop3.)          *)
+(* ========================================================================== *)
+
+Theorem C07_stored_by_unfold :
+  forall (K Q : Type) (ck : K -> N) (cq : Q -> N) (n : nat) (r : @sres2 K) (s : @fset K) (k : K),
+    (forall k' : K,
+        stored_by ck cq n (S2Base (SoInsert k')) r s k <-> k' = k /\ r = R2Base (SBool true)) /\
+    (forall k' : K,
+        stored_by ck cq n (S2Base (SoReplace k')) r s k <-> k' = k /\ r <> R2Base SPanic) /\
+    (forall items : list K,
+        stored_by ck cq n (S2Base (SoExtend items)) r s k <-> stores ck cq n (SoExtend items) s k) /\
+    (forall q : Q, ~ stored_by ck cq n (S2Base (SoContains q)) r s k) /\
+    (forall q : Q, ~ stored_by ck cq n (S2Base (SoGet q)) r s k) /\
+    (forall q : Q, ~ stored_by ck cq n (S2Base (SoRemove q)) r s k) /\
+    (forall q : Q, ~ stored_by ck cq n (S2Base (SoTake q)) r s k) /\
+    (forall g : K -> bool, ~ stored_by ck cq n (S2Base (SoRetain g)) r s k) /\
+    ~ stored_by ck cq n (S2Base SoClear) r s k /\
+    (forall take : nat, ~ stored_by ck cq n (S2Drain take) r s k).
+Proof. exact (@stored_by_unfold). Qed.
+Print Assumptions C07_stored_by_unfold.
+
+Theorem C07_srun2_results_membership :
+  forall (K Q T : Type) (E : env K unit Q T) (debug : bool) (ck : K -> N) (cq : Q -> N),
+    Lawful E ck cq ->
+    forall (n : nat) (ops : list (@sop2 K Q)) (t : T) (lg : list event),
+      let w0 := {| cb := t; log := lg; self := new_map n |} in
+      exists wf : world K unit T,
+        smfinal2 E debug ops w0 = Some wf /\
+        cap (self wf) = n /\
+        (forall (pre : list (@sop2 K Q)) (o : @sop K Q) (post : list (@sop2 K Q)),
+            ops = pre ++ S2Base o :: post ->
+            nth_error (smrun2 E debug ops w0) (length pre) =
+            Some (R2Base (fst (fstep ck cq n o (fsfinal2 ck cq n pre []))))) /\
+        (forall (c : N) (k : K),
+            option_map fst (lookup ck (Spec.elems (self wf)) c) = Some k <->
+            (exists (pre : list (@sop2 K Q)) (o : @sop2 K Q) (post : list (@sop2 K Q)) (r : @sres2 K),
+                ops = pre ++ o :: post /\
+                nth_error (smrun2 E debug ops w0) (length pre) = Some r /\
+                stored_by ck cq n o r (fsfinal2 ck cq n pre []) k /\
+                ck k = c /\
+                noremove ck cq n c post (fnext2 ck cq n o (fsfinal2 ck cq n pre [])))).
+Proof. exact (@srun2_results_membership). Qed.
+Print Assumptions C07_srun2_results_membership.
+
+(* -------------------------------------------------------------------------- *)
+(* forgotten drains                                                            *)
+
+Theorem C07_sop3_unfold :
+  forall (K Q T : Type) (E : env K unit Q T) (debug : bool) (ck : K -> N) (cq : Q -> N) (n : nat)
+         (s : @fset K) (r : @sres2 K) (k : K) (c : N),
+    (forall o : @sop2 K Q, sstep3 E debug (S3Base o) = sstep2 E debug o) /\
+    (forall take : nat,
+        sstep3 E debug (S3DrainForget take) =
+        (cu <- drain ;; x <- IterSpec.drain_run take cu ;; ret (R2Drained (List.map fst (fst x))))) /\
+    (forall o : @sop2 K Q, fstep3 ck cq n (S3Base o) s r <-> fstep2 ck cq n o s r) /\
+    (forall take : nat,
+        fstep3 ck cq n (S3DrainForget take) s r <->
+        (exists p : list K, Permutation p s /\ r = R2Drained (firstn take p))) /\
+    (forall o : @sop2 K Q, fnext3 ck cq n (S3Base o) s = fnext2 ck cq n o s) /\
+    (forall take : nat, fnext3 ck cq n (@S3DrainForget K Q take) s = []) /\
+    (forall o : @sop2 K Q, stores3 ck cq n (S3Base o) s k <-> stores2 ck cq n o s k) /\
+    (forall take : nat, ~ stores3 ck cq n (S3DrainForget take) s k) /\
+    (forall o : @sop2 K Q, removes3 ck cq n (S3Base o) s c <-> removes2 ck cq n o s c) /\
+    (forall take : nat, removes3 ck cq n (S3DrainForget take) s c <-> True) /\
+    (noremove3 ck cq n c [] s <-> True) /\
+    (forall (o : @sop3 K Q) (t : list (@sop3 K Q)),
+        noremove3 ck cq n c (o :: t) s <->
+        ~ removes3 ck cq n o s c /\ noremove3 ck cq n c t (fnext3 ck cq n o s)).
+Proof. exact (@sop3_unfold). Qed.
+Print Assumptions C07_sop3_unfold.
+
+Theorem C07_sstep3_forget :
+  forall (K Q T : Type) (E : env K unit Q T) (debug : bool) (ck : K -> N) (cq : Q -> N)
+         (n take : nat) (w : world K unit T) (s : @fset K),
+    SAbs ck (self w) s ->
+    cap (self w) = n ->
+    wp (sstep3 E debug (S3DrainForget take))
+       (fun (r : @sres2 K) (w' : world K unit T) =>
+          fstep3 ck cq n (S3DrainForget take) s r /\
+          SAbs ck (self w') [] /\ cap (self w') = n /\ log w' = log w)
+       (fun _ : world K unit T => False) w.
+Proof. exact (@sstep3_forget). Qed.
+Print Assumptions C07_sstep3_forget.
+
+Theorem C07_sstep3_refines :
+  forall (K Q T : Type) (E : env K unit Q T) (debug : bool) (ck : K -> N) (cq : Q -> N),
+    Lawful E ck cq ->
+    forall (n : nat) (o : @sop3 K Q) (w : world K unit T) (s : @fset K),
+      SAbs ck (self w) s ->
+      cap (self w) = n ->
+      match sstep3 E debug o w with
+      | Ok r w' =>
+          fstep3 ck cq n o s r /\ SAbs ck (self w') (fnext3 ck cq n o s) /\ cap (self w') = n
+      | Panic w' =>
+          fstep3 ck cq n o s (R2Base SPanic) /\
+          SAbs ck (self w') (fnext3 ck cq n o s) /\ cap (self w') = n
+      | UB => False
+      end.
+Proof. exact (@sstep3_refines). Qed.
+Print Assumptions C07_sstep3_refines.
+
+Theorem C07_srun3_refines :
+  forall (K Q T : Type) (E : env K unit Q T) (debug : bool) (ck : K -> N) (cq : Q -> N),
+    Lawful E ck cq ->
+    forall (n : nat) (ops : list (@sop3 K Q)) (w : world K unit T) (s : @fset K),
+      SAbs ck (self w) s ->
+      cap (self w) = n ->
+      exists wf : world K unit T,
+        smfinal3 E debug ops w = Some wf /\
+        fsruns3 ck cq n ops s (smrun3 E debug ops w) /\
+        SAbs ck (self wf) (fsfinal3 ck cq n ops s) /\
+        cap (self wf) = n.
+Proof. exact (@srun3_refines). Qed.
+Print Assumptions C07_srun3_refines.
+
+Theorem C07_srun3_refines_new :
+  forall (K Q T : Type) (E : env K unit Q T) (debug : bool) (ck : K -> N) (cq : Q -> N),
+    Lawful E ck cq ->
+    forall (n : nat) (ops : list (@sop3 K Q)) (t : T) (lg : list event),
+      let w0 := {| cb := t; log := lg; self := new_map n |} in
+      exists wf : world K unit T,
+        smfinal3 E debug ops w0 = Some wf /\
+        fsruns3 ck cq n ops [] (smrun3 E debug ops w0) /\
+        SAbs ck (self wf) (fsfinal3 ck cq n ops []) /\
+        cap (self wf) = n.
+Proof. exact (@srun3_refines_new). Qed.
+Print Assumptions C07_srun3_refines_new.
+
+Theorem C07_fsfinal3_mem :
+  forall (K Q : Type) (ck : K -> N) (cq : Q -> N) (n : nat) (ops : list (@sop3 K Q)) (s : @fset K)
+         (c : N) (k : K),
+    NoDup (List.map ck s) ->
+    (f_mem ck (fsfinal3 ck cq n ops s) c = Some k <->
+     f_mem ck s c = Some k /\ noremove3 ck cq n c ops s \/
+     (exists (pre : list (@sop3 K Q)) (o : @sop3 K Q) (post : list (@sop3 K Q)),
+         ops = pre ++ o :: post /\
+         stores3 ck cq n o (fsfinal3 ck cq n pre s) k /\
+         ck k = c /\
+         noremove3 ck cq n c post (fnext3 ck cq n o (fsfinal3 ck cq n pre s)))).
+Proof. exact (@fsfinal3_mem). Qed.
+Print Assumptions C07_fsfinal3_mem.
+
+Theorem C07_srun3_membership :
+  forall (K Q T : Type) (E : env K unit Q T) (debug : bool) (ck : K -> N) (cq : Q -> N),
+    Lawful E ck cq ->
+    forall (n : nat) (ops : list (@sop3 K Q)) (t : T) (lg : list event),
+      exists wf : world K unit T,
+        smfinal3 E debug ops {| cb := t; log := lg; self := new_map n |} = Some wf /\
+        cap (self wf) = n /\
+        (forall (c : N) (k : K),
+            option_map fst (lookup ck (Spec.elems (self wf)) c) = Some k <->
+            (exists (pre : list (@sop3 K Q)) (o : @sop3 K Q) (post : list (@sop3 K Q)),
+                ops = pre ++ o :: post /\
+                stores3 ck cq n o (fsfinal3 ck cq n pre []) k /\
+                ck k = c /\
+                noremove3 ck cq n c post (fnext3 ck cq n o (fsfinal3 ck cq n pre [])))).
+Proof. exact (@srun3_membership). Qed.
+Print Assumptions C07_srun3_membership.
+
+(* Non-vacuity: two inserts, a forgotten drain that took one of the two elements (the other is
+   leaked: the log stays empty), then the set is reusable: insert, a dropped drain, insert *)
+Definition C07_ops3 : list (@sop3 key query) :=
+  [S3Base (S2Base (SoInsert (k_ 1 5))); S3Base (S2Base (SoInsert (k_ 2 6))); S3DrainForget 1;
+   S3Base (S2Base (SoInsert (k_ 3 6))); S3Base (S2Drain 0); S3Base (S2Base (SoInsert (k_ 4 7)))].
+
+Example C07_example_run3 :
+  smrun3 (env_set C07_sc0) false C07_ops3 {| cb := cs0; log := []; self := new_map 2 |} =
+  [R2Base (SBool true); R2Base (SBool true); R2Drained [k_ 1 5]; R2Base (SBool true); R2Drained [];
+   R2Base (SBool true)] /\
+  fsfinal3 kcls qcls 2 C07_ops3 [] = [k_ 4 7] /\
+  match smfinal3 (env_set C07_sc0) false (firstn 3 C07_ops3) {| cb := cs0; log := []; self := new_map 2 |} with
+  | Some wf => log wf = [] /\ len (self wf) = 0
+  | None => False
+  end.
+Proof. vm_compute. repeat split; reflexivity. Qed.
+
+(* the results-based characterisation on the history C07_ops2: the model's 10th result
+   (position 9) is SElem K7 — not a panic — for the call replace(K8) *)
+Example C07_example_results_membership :
+  nth_error (smrun2 (env_set C07_sc0) false C07_ops2 {| cb := cs0; log := []; self := new_map 3 |}) 9
+    = Some (R2Base (SElem (k_ 7 8))) /\
+  stored_by kcls qcls 3 (S2Base (SoReplace (k_ 8 8))) (R2Base (SElem (k_ 7 8)))
+            (fsfinal2 kcls qcls 3 (firstn 9 C07_ops2) []) (k_ 8 8).
+Proof. split; [vm_compute; reflexivity | split; [reflexivity | discriminate]]. Qed.
